@@ -375,6 +375,44 @@ def r14_3(prog, rep):
             rep.fail(rid, "make_task/type-%s" % nm, mt.loc(ln), "VTOD_TYP_%s is set without storing t.%s" % (nm, fld))
 
 
+def r14_4(prog, rep):
+    """Provenance of the per-run limit in the daemon: the field vtodoify() turns into the request's DURATION is written only from the
+    duration of an event taken from the task's stream.  (libev calls the reschedule callback before the task callback of the occurrence
+    that is firing, so whatever else is stored there is what the firing occurrence is limited by.)"""
+    rid = "R14.4"
+    vt = prog.fn("vtodoify", "echsd.c")
+    # the field vtodoify reads for the DURATION line
+    fld = None
+    for b, i, x, line in vt.cfg.all_elems():
+        for l, kind, n in writes(x):
+            if kind == "decl" and n.get("init") is not None and "idiff" in (n.get("t") or ""):
+                ini = strip_casts(vt.cfg.resolve(n["init"]))
+                if ini.get("k") == "mem":
+                    fld = ini["f"]
+    if fld is None:
+        raise AnalysisBroken("R14.4: vtodoify no longer reads the limit from a task field")
+    n = 0
+    for f in prog.fns_in("echsd.c"):
+        if not f.cfg:
+            continue
+        for b, i, x, line in f.cfg.all_elems():
+            for l, kind, nn in writes(f.cfg.resolve(x)):
+                l_ = strip_casts(l)
+                if not (l_.get("k") == "mem" and l_["f"] == fld and "_task_s" in (l_.get("rec") or "")):
+                    continue
+                n += 1
+                key = "%s/writes-%s#%d" % (f.name, fld, n)
+                rhs = strip_casts(nn.get("r")) if nn.get("k") == "bin" and nn["op"] == "=" else None
+                if rhs is not None and rhs.get("k") == "mem" and rhs["f"] == "dur" and "event" in (rhs.get("rec") or ""):
+                    rep.ok(rid, key, f.loc(nn.get("line", line)), "%s is taken from an occurrence of the stream (%s)" % (lv(l_), show(rhs)))
+                else:
+                    rep.fail(rid, key, f.loc(nn.get("line", line)),
+                             "the limit field %s is written with `%s`, not with the duration of an occurrence: the occurrence that is about to fire "
+                             "is handed that value as its DURATION (a nul duration means no limit at all)" % (lv(l_), show(nn)[:60]))
+    if n < 1:
+        rep.broken_("rule=R14.4 no store to the limit field %s found in echsd.c" % fld)
+
+
 def run(prog, rep, tier, snap):
     rep.rule("R14.1", "unit flow ms -> s across echsd's request writer and echsx's alarm", 3)
     rep.call(r14_1, prog, rep)
@@ -382,4 +420,9 @@ def run(prog, rep, tier, snap):
     rep.call(r14_2, prog, rep)
     rep.rule("R14.3", "deadline path: arm before spawn, refuse overdue, handler before alarm, handler kills spawned pid, DTEND->duration", 8)
     rep.call(r14_3, prog, rep)
+    from . import c08
+    rep.rule("R08.6", "a borrow of a whole time unit is paired with its carry (DTEND - DTSTART; shared with C08)", 1)
+    rep.call(c08.r08_6, prog, rep)
+    rep.rule("R14.4", "the per-run limit in the daemon is written only from an occurrence's duration", 1)
+    rep.call(r14_4, prog, rep)
 READY = True
